@@ -55,7 +55,7 @@ def gen_recycle(rng):
 
 def decorate(behs, rng):
     """implementation-level variations the abstract history does not distinguish (the specification's verdict is the same):
-    the collector behind Box / Arc, a per-layer-filtered third layer with some spans hidden from it, raw references
+    the collector behind Box / Arc, a layer whose on_close panics, a per-layer-filtered third layer with some spans hidden from it, raw references
     (Dispatch::clone_span given back by try_close / drop_span), handles dropped by an unwinding panic, and drops that
     overlap other threads' operations (parked inside a layer's on_close until `release`; they take effect there)"""
     for b in behs:
@@ -83,6 +83,10 @@ def decorate(behs, rng):
                 if pending_release is None and run >= 1 and rng.random() < 0.4:
                     st["hold"] = True
                     pending_release = (i + rng.randint(1, run), st["t"])
+                elif not st.get("unwind") and "then" not in st and rng.random() < 0.2:
+                    # user code inside the outermost layer's on_close panics for this span (the panic is caught by the owner
+                    # of the handle): the span is closed all the same - gone afterwards, its parent released
+                    st["boom"] = True
             out.append(st)
             if pending_release and pending_release[0] == i:
                 out.append({"op": "release", "t": pending_release[1]})
@@ -135,6 +139,22 @@ def gen_nested(rng):
         n += 1
         steps.append({"op": "new", "t": t, "pk": pk, "p": p})
         return n
+    if rng.random() < 0.5:
+        # ... of the OTHER registry, created as its k-th span on the same thread (so the two spans carry the same raw id): the
+        # close in progress of one registry's span must not be mistaken for a frame of the other's
+        k = rng.randint(1, 3)
+        a = [new(1, "root") for _ in range(k)]
+        steps.append({"op": "switch", "t": 1, "r": 2})
+        b = [new(1, "root") for _ in range(k)]
+        back = rng.random() < 0.6
+        if back:
+            steps.append({"op": "switch", "t": 1, "r": 1})
+        (x, y) = (a[-1], b[-1]) if back else (b[-1], a[-1])
+        steps.append({"op": "drop", "t": 1, "s": x, "then": y})
+        for z in a[:-1] + b[:-1]:
+            steps.append({"op": "drop", "t": rng.choice([1, 2]), "s": z})
+        if not back:
+            steps.append({"op": "switch", "t": 1, "r": 1})
     for _ in range(rng.randint(1, 3)):
         t = rng.choice([1, 1, 2])
         p = new(t, "root") if rng.random() < 0.6 else None
